@@ -1265,6 +1265,15 @@ impl<'a, SE: extensions::ShellExtensions> WordExpander<'a, SE> {
                 // declared array even with `set -u`. But ${#unset_var} still
                 // errors. Allow unset only for array element/all-indices
                 // access on variables that exist.
+                // ... and so does the element count of an array that has no value at all.
+                if let brush_parser::word::Parameter::NamedWithAllIndices { name, .. } = &parameter
+                    && !indirect
+                    && self.shell.env().get(name).is_none_or(|(_, var)| {
+                        matches!(var.value(), ShellValue::Unset(_))
+                    })
+                {
+                    self.undefined_expansion(&parameter, false)?;
+                }
                 let allow_unset = match &parameter {
                     brush_parser::word::Parameter::NamedWithIndex { name, .. }
                     | brush_parser::word::Parameter::NamedWithAllIndices { name, .. } => {
